@@ -270,6 +270,7 @@ func runExec(args []string) {
 	defer out.Flush()
 	var mgr *server.Manager
 	dead := false
+	hangs := 0
 	if os.Getenv("VERIF_EVENTS") != "" {
 		recorder.pass = true
 		memdb.VerifEventHook = recorder.hook
@@ -322,7 +323,8 @@ func runExec(args []string) {
 				}
 			}
 			line = strings.Join(f, " ")
-			if mgr == nil || dead {
+			if mgr == nil || dead || hangs >= 2 {
+				// after two commands that never returned the run is cut short (each costs the 10 s watchdog): the rest is skipped
 				fmt.Fprintf(out, "%s => SKIP\n", line)
 				continue
 			}
@@ -336,6 +338,9 @@ func runExec(args []string) {
 			}
 			if r.reply == "PANIC" || r.reply == "HANG" {
 				dead = true
+				if r.reply == "HANG" {
+					hangs++
+				}
 				fmt.Fprintf(out, "%s => %d %d %s - fl=- rf=-%s\n", line, r.t0, r.t1, r.reply, evField(r))
 				out.Flush()
 				continue
